@@ -364,6 +364,24 @@ def c13_r3(ctx: Ctx, rule):
       decides="the second export numbers its blank nodes exactly like the first")
 def c13_r4(ctx: Ctx, rule):
     res = RuleResult()
+    # the counter behind NamespaceManager's anonymous identifiers is document state: no serializer, exporter or converter module
+    # draws from it (each call increments it, so a second export would number its blank nodes differently)
+    counter_methods = set()
+    for mname, mq in ctx.p.classes[NSM].methods.items():
+        f0 = ctx.fn(mq)
+        if any(isinstance(x, ast.AugAssign) and isinstance(x.target, ast.Attribute) and norm(x.target.value) == "self" for x in walk_function(f0.node)) and not mname.startswith("__"):
+            counter_methods.add(mname)
+    n_draw = 0
+    for q, fi in ctx.p.functions.items():
+        if isinstance(fi.node, ast.Lambda) or not (fi.module.startswith("prov.serializers") or fi.module in (GR, DOT)):
+            continue
+        for c in calls_in(fi.node):
+            if isinstance(c.func, ast.Attribute) and c.func.attr in counter_methods and ctx.p.lookup_method(fi.cls, c.func.attr) is None if fi.cls else isinstance(c.func, ast.Attribute) and c.func.attr in counter_methods:
+                n_draw += 1
+                res.fail(rule.id, "export-draws-from-document-counter::%s" % q, ctx.loc(q, c),
+                         "%s calls %s, which advances a counter kept on the document's namespace manager" % (short(q) if q.count(".") > 2 else q, norm(c.func)[:50]),
+                         "serialize(format='json') twice on one document with an unidentified relation: _:id1 the first time, _:id2 the second")
+    res.ob("methods of NamespaceManager that advance a counter: %s; calls to them from serializer / graph / dot modules: %d" % (sorted(counter_methods), n_draw))
     for mod in (JS, RD):
         gen = mod + ".AnonymousIDGenerator"
         if gen not in ctx.p.classes:
@@ -460,6 +478,15 @@ def c12_r1(ctx: Ctx, rule):
             n_shallow += 1
             a = c.args[0]
             cls = fi.cls if isinstance(a, ast.Name) and a.id == "self" else None
+            if cls is None and isinstance(a, ast.Attribute) and isinstance(a.value, ast.Name) and fi.cls:
+                # copy.copy(x.field) where the field is created as an object of a repository class
+                for k in ctx.p.mro(fi.cls):
+                    fld = field_table(ctx, k).get(a.attr) if k in ctx.p.classes else None
+                    if fld is not None:
+                        for cq in ctx.p.classes:
+                            nm = cq.rsplit(".", 1)[1]
+                            if fld.container in (nm, "<%s>" % nm) or fld.container.startswith(nm + "(") or fld.init.startswith(nm + "("):
+                                cls = cq
             if cls is None:
                 res.ob("%s: %s: the class of the argument is not known statically: not judged" % (short(q), norm(c)[:50]), nontrivial=False)
                 continue
@@ -467,7 +494,7 @@ def c12_r1(ctx: Ctx, rule):
             res.ob("%s: %s makes a shallow copy of a %s, which owns the containers %s" % (short(q), norm(c)[:40], cls.rsplit(".", 1)[1], shared))
             if shared:
                 res.fail(rule.id, "shallow-copy::%s" % q, ctx.loc(q, c),
-                         "%s returns copy.copy(self): the new %s shares %s with the original" % (short(q), cls.rsplit(".", 1)[1], ", ".join(shared)),
+                         "%s makes %s: the new %s shares %s with the original" % (short(q), norm(c)[:40], cls.rsplit(".", 1)[1], ", ".join(shared)),
                          "register a namespace (or add a record) on the copy: it appears in the original too")
     res.ob("copy.copy() calls in the package: %d" % n_shallow, nontrivial=False)
     return res
@@ -2009,3 +2036,86 @@ def one_shot_local_rule(prop):
 for _p, _r in (("C06", "C06.R16"), ("C09", "C09.R15"), ("C13", "C13.R9"), ("C18", "C18.R14"), ("C08", "C08.R17"), ("C12", "C12.R12"), ("C14", "C14.R10"), ("C15", "C15.R13"), ("C16", "C16.R15"), ("C07", "C07.R15"), ("C01", "C01.R18"), ("C02", "C02.R19")):
     RULES.setdefault(_p, []).append(Rule(_r, "a one-shot iterator held in a local is walked at most once on any path of this property's entry points", 0, one_shot_local_rule(_p), "F-PATH",
                                          "counting or logging what is about to be processed does not consume it"))
+
+
+# ===================================================================================== C08.R18: a conflict between merged records is not absorbed
+def c08_r18(ctx: Ctx, rule):
+    """unified() "either raises ProvException (two records with the same identifier disagree on a single-valued formal attribute)
+    or returns" the merged form.  The refusal comes from add_attributes; in the merging helper and in both unified() methods, the
+    calls that merge (new_record / add_attributes / the helper itself) do not sit in a `try` whose handler takes ProvException (or
+    something broader) and carries on."""
+    res = RuleResult()
+    uq = unified_helper(ctx)
+    roots = [uq, BUNDLE + ".unified", DOC + ".unified"]
+    n_try = 0
+    for q in roots:
+        if q not in ctx.p.functions:
+            continue
+        fi = ufn(ctx, q) if q != uq else ufn(ctx, q, keep=())
+        for t in walk_function(fi.node):
+            if not isinstance(t, ast.Try):
+                continue
+            merges = [c for b in t.body for c in ast.walk(b) if isinstance(c, ast.Call) and call_name(c) in ("add_attributes", "new_record", uq.rsplit(".", 1)[1], "unified", "add_record")]
+            if not merges:
+                continue
+            for h in t.handlers:
+                names = [norm(x) for x in (h.type.elts if isinstance(h.type, ast.Tuple) else [h.type])] if h.type is not None else ["<bare>"]
+                broad = [nm for nm in names if nm in ("<bare>", "Exception", "BaseException") or nm.endswith("ProvException")]
+                reraises = any(isinstance(x, ast.Raise) for b in h.body for x in ast.walk(b))
+                if broad and not reraises:
+                    n_try += 1
+                    res.fail(rule.id, "merge-conflict-absorbed::%s" % q, ctx.loc(q, h),
+                             "%s catches %s around %s and carries on: records that disagree on a single-valued formal attribute are left un-merged instead of being refused" % (short(q), "/".join(broad), norm(merges[0].func)[:30]),
+                             "activity ex:a stated twice with different start times: unified() returns a document in which ex:a still occurs on two activity records")
+    res.ob("handlers that absorb the refusal of a merge in %s: %d" % ([short(q) for q in roots], n_try))
+    return res
+
+
+RULES.setdefault("C08", []).append(Rule("C08.R18", "the refusal of a conflicting merge is not absorbed: no handler for ProvException (or broader) around the merging calls of unified()", 1, c08_r18, "F-PATH",
+                                        "unified() raises ProvException when same-identifier records disagree on a single-valued formal attribute"))
+
+
+# ===================================================================================== C04.R12: floats are compared as they are
+def c04_r12(ctx: Ctx, rule):
+    """Equality discriminates every attribute value: in the closure of ProvRecord.__eq__ / __hash__ (and Literal's), a float is
+    never replaced by a formatted stand-in of limited precision (`"%E" % v`, `"%g"`, `round(v, n)`, `format(v, ".6g")`)."""
+    import re as _re
+    res = RuleResult()
+    lossy_fmt = _re.compile(r"%[-#0 +]*\d*(?:\.\d+)?[eEfgG]")
+    n = 0
+    seen = set()
+    for cls in (RECORD, M + ".Literal"):
+        for m in ("__eq__", "__hash__"):
+            mq = ctx.p.lookup_method(cls, m)
+            if not mq:
+                continue
+            for q in ctx.helper_closure(mq, 2):
+                if q in seen:
+                    continue
+                seen.add(q)
+                fi = ctx.p.functions.get(q)
+                if fi is None or isinstance(fi.node, ast.Lambda) or fi.module not in (M, "prov.identifier"):
+                    continue
+                if fi.name in ("get_provn", "provn_representation", "__repr__", "__str__", "encoding_provn_value"):
+                    continue
+                for x in walk_function(fi.node):
+                    what = None
+                    if isinstance(x, ast.BinOp) and isinstance(x.op, ast.Mod) and isinstance(x.left, ast.Constant) and isinstance(x.left.value, str) and lossy_fmt.search(x.left.value.replace("%%", "")):
+                        what = "%r %% .." % x.left.value
+                    elif isinstance(x, ast.Call) and call_name(x) == "round" and len(x.args) >= 1:
+                        what = norm(x)[:30]
+                    elif isinstance(x, ast.Call) and call_name(x) == "format" and len(x.args) == 2 and isinstance(x.args[1], ast.Constant) and _re.search(r"[eEfgG]$", str(x.args[1].value)):
+                        what = norm(x)[:30]
+                    elif isinstance(x, ast.FormattedValue) and x.format_spec is not None and _re.search(r"[eEfgG]$", norm(x.format_spec).strip("'\"f")):
+                        what = "f-string spec %s" % norm(x.format_spec)
+                    if what:
+                        n += 1
+                        res.fail(rule.id, "lossy-comparison-key::%s" % q, ctx.loc(q, x),
+                                 "%s, on the path of record equality / hashing, replaces a number by %s: values that differ beyond that precision compare equal" % (short(q) if q.count(".") > 2 else q, what),
+                                 "ex:reading = 0.3 and ex:reading = 0.1 + 0.2: the two documents compare equal and hash alike although one attribute value differs")
+    res.ob("precision-limited stand-ins for numbers on the equality / hash path: %d (functions looked at: %d)" % (n, len(seen)))
+    return res
+
+
+RULES.setdefault("C04", []).append(Rule("C04.R12", "numbers are compared as they are: no precision-limited formatting or rounding on the equality / hash path", 1, c04_r12, "F-TAINT",
+                                        "a single changed float attribute value falsifies equality"))
